@@ -13,6 +13,11 @@ R4 every path through QNoiseScheduler.update_qnoise_factor increments
    num_iters exactly once; both hooks pass initial_step_or_epoch + num_iters.
 R5 every layer class that owns quantizers exposes them under the attribute
    names the scheduler reads (`quantizers` / `quantizer`).
+R6 the callback interpreted end to end (own __init__, synthetic model,
+   on_train_begin, sequences of batch / epoch hooks incl. a repeated
+   on_train_begin and Keras restarting the counter it passes): exactly the
+   knob quantizers are driven, at every update step, with 0 before start, 1
+   from finish on, values in [0, 1] that never decrease.
 """
 import ast
 from fractions import Fraction as F
@@ -637,6 +642,142 @@ def rule_reach(rep, repo):
     raise AnalysisError("instance-count R5 found only %d layer classes" % n)
 
 
+def rule_scheduler_run(rep, repo, tier):
+  """R6: the callback as a whole, interpreted: built by its own __init__,
+  attached to a synthetic model (a layer with a `quantizers` list holding a
+  quantizer without the knob, a knob quantizer, None and another knob
+  quantizer; a layer with a
+  single `quantizer`; a plain layer), on_train_begin and then a sequence of
+  batch / epoch hooks.  Every knob quantizer - and nothing else - must be
+  driven, at every update step, with a value that is 0 before start, 1 from
+  finish on, inside [0, 1] and never decreasing; the hook of the other
+  frequency type must not advance the schedule; a second on_train_begin must
+  not reset it."""
+  cb, c = sched_class(repo)
+  unit = "%s::QNoiseScheduler" % cb.relpath
+  rep.unit(unit)
+  loc = c.loc()
+  scen = [
+      dict(start=2, finish=5, freq_type="epoch"),
+      dict(start=0, finish=0, freq_type="step"),
+      dict(start=2, finish=6, freq_type="step", update_freq=2, exponent=1.0),
+      dict(start=3, finish=4, freq_type="epoch", initial_step_or_epoch=2),
+      dict(start=1, finish=7, freq_type="step", update_freq=3,
+           use_ste=False),
+      dict(start=4, finish=4, freq_type="epoch"),
+  ]
+  if tier == "thorough":
+    scen += [dict(start=0, finish=9, freq_type="step", exponent=0.5),
+             dict(start=5, finish=8, freq_type="epoch", update_freq=4,
+                  initial_step_or_epoch=3),
+             dict(start=1, finish=2, freq_type="step", exponent=6.0)]
+  for sc in scen:
+    cfg = "QNoiseScheduler(%s)" % ", ".join("%s=%r" % kv
+                                            for kv in sorted(sc.items()))
+    log = []
+
+    def mkq(name, knob=True):
+      at = {"name": name, "use_ste": None, "use_variables": False,
+            "built": False}
+      if knob:
+        at["qnoise_factor"] = 1.0
+      m = Mock(name, at)
+
+      def upd(pe, a, k, m=m):
+        v = a[0] if a else k.get("qnoise_factor")
+        log.append((m.attrs["name"], v))
+        m.attrs["qnoise_factor"] = v
+      m.attrs["update_qnoise_factor"] = upd
+      m.attrs["build"] = lambda pe, a, k: None
+      return m
+    q1, q2, q3 = mkq("q1"), mkq("q2", knob=False), mkq("q3")
+    q4 = mkq("q4")
+    model = Mock("model", {"layers": [
+        Mock("layer with quantizers", {"quantizers": [q2, q1, None, q4]}),
+        Mock("activation layer", {"quantizer": q3}),
+        Mock("plain layer", {})]})
+    pe = PE(repo)
+    pe.opaque_ext = True
+    pe.ext_overrides = {"<external-super>.__init__": lambda pe, a, k: None}
+    try:
+      s = pe.call(pe.lookup_global("QNoiseScheduler", cb), [], dict(sc))
+      s.attrs["model"] = model
+      pe.call(pe.getattr(s, "on_train_begin"), [], {})
+      begin = list(log)
+      del log[:]
+      ticks = []
+      own = "on_epoch_begin" if sc["freq_type"] == "epoch" else \
+          "on_train_batch_begin"
+      other = "on_train_batch_begin" if own == "on_epoch_begin" else \
+          "on_epoch_begin"
+      for i in range(sc["finish"] + 4):
+        pe.call(pe.getattr(s, other), [i], {})
+        n_other = len(log)
+        if i == 3:
+          pe.call(pe.getattr(s, "on_train_begin"), [], {})
+        n_again = len(log)
+        # Keras restarts the epoch / batch counter it passes to the hook
+        pe.call(pe.getattr(s, own), [i % 3], {})
+        ticks.append((i, n_other, n_again, list(log)))
+        del log[:]
+    except PyRaise as e:
+      rep.fail("R6", unit, "scheduler-raises", "%s raises %s" % (cfg, e),
+               loc=loc, instance=cfg)
+      continue
+
+    def num(v):
+      if isinstance(v, Tensor) and v.term[0] == "c":
+        v = v.term[1]
+      if hasattr(v, "value"):
+        v = v.value
+      return F(v) if isinstance(v, (int, F)) else (
+          float(v) if isinstance(v, float) else None)
+    want_begin = sorted([("q1", 0), ("q3", 0), ("q4", 0)])
+    got_begin = sorted((n, num(v)) for n, v in begin)
+    rep.check(got_begin == want_begin, "R6", unit,
+              "pretraining-factor-not-set",
+              "%s: on_train_begin drives %r; every quantizer with the knob "
+              "(q1, q3, q4) and only those must start at 0" % (cfg, got_begin),
+              loc=loc, instance=cfg)
+    rep.check(all(q.attrs["use_variables"] is True and
+                  q.attrs["use_ste"] == sc.get("use_ste", True)
+                  for q in (q1, q3, q4)), "R6", unit,
+              "quantizer-not-prepared",
+              "%s: use_variables / use_ste of the driven quantizers are %r" %
+              (cfg, [(q.attrs["use_variables"], q.attrs["use_ste"])
+                     for q in (q1, q3, q4)]), loc=loc, instance=cfg)
+    init = sc.get("initial_step_or_epoch", 0)
+    uf = sc.get("update_freq", 1)
+    last = F(0)
+    bad = None
+    for i, n_other, n_again, entries in ticks:
+      freq = init + i
+      if n_other or n_again:
+        bad = bad or ("tick %d: the %s hook / a repeated on_train_begin "
+                      "drove the quantizers" % (i, other))
+      if freq % uf != 0:
+        if entries:
+          bad = bad or "tick %d is not an update step but drove %r" % (
+              i, entries)
+        continue
+      vals = {n: num(v) for n, v in entries}
+      if sorted(n for n, _ in entries) != ["q1", "q3", "q4"] or None in \
+          vals.values() or len(set(vals.values())) != 1:
+        bad = bad or "update step %d (position %d) drives %r" % (
+            i, freq, entries)
+        continue
+      v = vals["q1"]
+      if freq < sc["start"] and v != 0:
+        bad = bad or "position %d < start but factor %s" % (freq, v)
+      if freq >= sc["finish"] and v != 1:
+        bad = bad or "position %d >= finish but factor %s" % (freq, v)
+      if not 0 <= v <= 1 or v < last:
+        bad = bad or "position %d: factor %s after %s" % (freq, v, last)
+      last = max(last, v)
+    rep.check(bad is None, "R6", unit, "schedule-not-followed",
+              "%s: %s" % (cfg, bad), loc=loc, instance=cfg)
+
+
 def run(rep, repo, tier):
   mod = repo.module(quant.QMOD)
   rep.trusted.append("tf.Variable(initial_value) holds initial_value; "
@@ -646,6 +787,8 @@ def run(rep, repo, tier):
   rule_schedule(rep, repo)
   rule_time(rep, repo)
   rule_reach(rep, repo)
+  rule_scheduler_run(rep, repo, tier)
+  rep.require_instances("R6", 18)
   rep.require_instances("R1", 1500)
   rep.require_instances("R2", 10)
   rep.require_instances("R3", 5)
